@@ -462,6 +462,10 @@ func (fd *Client) BatchWriteItem(ctx context.Context, input *dynamodb.BatchWrite
 		return &dynamodb.BatchWriteItemOutput{}, err
 	}
 
+	if err := fd.validateBatchWriteRequests(input); err != nil {
+		return &dynamodb.BatchWriteItemOutput{}, err
+	}
+
 	unprocessed := map[string][]types.WriteRequest{}
 
 	for table, reqs := range input.RequestItems {
@@ -558,6 +562,39 @@ func validateBatchWriteItemInput(input *dynamodb.BatchWriteItemInput) error {
 
 	if count > batchRequestsLimit {
 		return &smithy.GenericAPIError{Code: "ValidationException", Message: "Too many items requested for the BatchWriteItem call"}
+	}
+
+	return nil
+}
+
+// validateBatchWriteRequests checks every request of the batch before the first one is executed,
+// a batch with a request that cannot be applied is rejected as a whole and leaves no trace
+func (fd *Client) validateBatchWriteRequests(input *dynamodb.BatchWriteItemInput) error {
+	fd.mu.Lock()
+	defer fd.mu.Unlock()
+
+	if fd.forceFailureErr != nil {
+		// every request is going to be answered with the emulated failure
+		return nil
+	}
+
+	for tableName, reqs := range input.RequestItems {
+		table, err := fd.getTable(tableName)
+		if err != nil {
+			return mapKnownError(err)
+		}
+
+		for _, req := range reqs {
+			if req.PutRequest != nil {
+				err = table.ValidatePut(mapDynamoToTypesMapItem(req.PutRequest.Item))
+			} else {
+				err = table.ValidateKey(mapDynamoToTypesMapItem(req.DeleteRequest.Key))
+			}
+
+			if err != nil {
+				return mapKnownError(err)
+			}
+		}
 	}
 
 	return nil
